@@ -227,6 +227,24 @@ CHECKS = {
                 "monotonicity (clock).",
         "note": _BASE_NOTE + "Loop forms other than the recognised ones are reported as ANALYSIS-ERROR, not guessed.",
     },
+    "C18": {
+        "technique": "static analysis: finite typestate abstract interpretation of VBSClusteringManager (least fixpoint over all "
+                     "sequences of public calls on the abstraction {enum member, None, non-None} of its state fields), guard-fact "
+                     "and provenance rules for timers / heartbeat / recovery, must-call wiring rules, ASN.1 schema conformance of "
+                     "the cluster containers",
+        "text": "Decides on EVERY reachable abstract state (any order of role changes, commands, received VAMs, updates, any clock - "
+                "tests on forgotten quantities go both ways; exception exits included): leader <=> own cluster object present; "
+                "passive <=> joined id, leader id and an armed leader-lost timer; every notification phase has its start time; no "
+                "assert can fail; should_transmit_vam() is False only while passive or idle and True whenever stand-alone or leader. "
+                "Plus: cluster id drawn from 1..255, every cardinality store bounded below by 1; each phase ends on its own Table 14 "
+                "constant and stamps its timer when entered; only the leader's VAMs refresh the leader-lost timer; leader loss and "
+                "a leader's break-up (except reception-of-CPM) lead to stand-alone; the VAM generation cycle calls update() before "
+                "the gate, every decoded VAM reaches on_received_vam, containers are attached under their VAM keys before "
+                "encoding; cluster containers (writer and reader) conform to the VAM ASN.1 module. 1 known finding (bounding-box "
+                "CHOICE built as a dict, pinned). Does NOT decide durations as elapsed time nor multi-station closed loops.",
+        "note": _BASE_NOTE + "Assumptions of the typestate interpretation: the injected clock and the logger do not raise; "
+                "non-Optional annotations of locals are trusted; values of identifiers, times and message contents are forgotten.",
+    },
     "C12": {
         "technique": "static analysis: transitive write-effect summaries over the resolved call graph (CHA), guard facts, "
                      "returns-none summaries, keyword-forwarding rules",
